@@ -158,6 +158,7 @@ func oracleC08(x *Exec, so *StepObs) {
 		// ---- order ----
 		x.Res.Checks++
 		last, lastKind, lastPos := -1, "", -1
+		closed := map[string]bool{} // kinds whose group has ended
 		posInChart := map[string]int{}
 		// original order = files in path order, documents in file order
 		for i, mk := range chartDocOrder(cs) {
@@ -169,6 +170,15 @@ func oracleC08(x *Exec, so *StepObs) {
 			if oi < last {
 				fail("install-order", "kind", fmt.Sprintf("kind %s follows kind %s in the manifest", k, lastKind))
 				return
+			}
+			if k != lastKind {
+				if closed[k] {
+					fail("install-order", "kind-not-contiguous", fmt.Sprintf("documents of kind %s appear in more than one group (after %s)", k, lastKind))
+					return
+				}
+				if lastKind != "" {
+					closed[lastKind] = true
+				}
 			}
 			pos := posInChart[docMarker(m)]
 			if k == lastKind && pos < lastPos {
@@ -312,7 +322,7 @@ func genC08(seed, index uint64, tier string) *Plan {
 	p.Backend = g.Backend()
 	clientOnly := g.Chance(0.35)
 	cs := ChartSpec{Name: "demo", Version: "1.0.0", Values: map[string]interface{}{"a": "x"}}
-	kinds := []string{"ConfigMap", "Secret", "ServiceAccount", "Service", "Deployment", "Job", "ClusterRole", "Widget", "Pod", "Namespace"}
+	kinds := []string{"ConfigMap", "Secret", "ServiceAccount", "Service", "Deployment", "Job", "ClusterRole", "Widget", "Gadget", "Widget", "Gadget", "Pod", "Namespace"}
 	files := []string{"a.yaml", "b.yaml", "z/c.yaml", "m.yaml"}
 	n := 2 + g.N(10)
 	counters := map[string]int{}
@@ -333,7 +343,7 @@ func genC08(seed, index uint64, tier string) *Plan {
 		case "Deployment":
 			s.Rep = 1
 			s.Ports = []int{80}
-		case "ConfigMap", "Secret", "Widget", "Gizmo", "Alpha", "Zeta":
+		case "ConfigMap", "Secret", "Widget", "Gadget", "Gizmo", "Alpha", "Zeta":
 			s.Data = map[string]string{"k": g.Word()}
 		}
 		if k == "Namespace" {
